@@ -15,6 +15,10 @@
 //!    flight; 1-2 more callers start meanwhile; the probe is released with success/failure;
 //!    a follow-up call. Also 3 concurrent callers while closed (conservation only).
 //!
+//!  * late: the downstream is a plain `Sink` (the production adapter serialises calls, which makes
+//!    overlapping admitted calls impossible): callers admitted while closed complete after the
+//!    breaker has opened.
+//!
 //! Oracle
 //!  * conservation: every uid handed over is, at the end, delivered (mock recorded a success)
 //!    or in the DLQ file, not neither (`lost`) and - when batches fail atomically - not both
@@ -103,6 +107,26 @@ impl SinkConnector for Mock {
     }
 }
 
+/// The same scripted downstream as a plain `Sink` (no adapter mutex): several admitted callers
+/// are inside `send` at the same time.
+struct DirectMock(Mock);
+
+#[async_trait]
+impl Sink for DirectMock {
+    fn name(&self) -> &str {
+        SINK_NAME
+    }
+    async fn send(&self, event: &Event) -> anyhow::Result<()> {
+        SinkConnector::send(&self.0, event).await.map_err(|e| anyhow::anyhow!("{}", e))
+    }
+    async fn flush(&self) -> anyhow::Result<()> {
+        Ok(())
+    }
+    async fn close(&self) -> anyhow::Result<()> {
+        Ok(())
+    }
+}
+
 struct Rig {
     rs: Arc<ResilientSink>,
     cb: Arc<CircuitBreaker>,
@@ -115,11 +139,16 @@ struct Rig {
 }
 
 fn rig(dir: &std::path::Path, run_no: u64, threshold: u32) -> Rig {
+    rig_with(dir, run_no, threshold, false)
+}
+
+/// `direct`: the downstream is a plain `Sink` instead of the serialising production adapter.
+fn rig_with(dir: &std::path::Path, run_no: u64, threshold: u32, direct: bool) -> Rig {
     let st = Arc::new(Mutex::new(MockState::default()));
     let gate = Arc::new(Semaphore::new(0));
     let gated = Arc::new(AtomicBool::new(false));
     let mock = Mock { st: st.clone(), gate: gate.clone(), gated: gated.clone() };
-    let adapter: Arc<dyn Sink> = Arc::new(SinkConnectorAdapter::new(SINK_NAME, Box::new(mock)));
+    let adapter: Arc<dyn Sink> = if direct { Arc::new(DirectMock(mock)) } else { Arc::new(SinkConnectorAdapter::new(SINK_NAME, Box::new(mock))) };
     let cb = Arc::new(CircuitBreaker::new(CircuitBreakerConfig {
         failure_threshold: threshold,
         reset_timeout: Duration::from_secs(R_SECS),
@@ -549,6 +578,92 @@ async fn run_conc(c: &ConcCase, dir: &std::path::Path, run_no: u64, out: &mut Pa
     let _ = std::fs::remove_file(&rg.dlq_path);
 }
 
+/// A call admitted while the breaker was closed completes only after other callers have opened it.
+/// The breaker has to stay open: "rejects requests until the reset timeout has passed".
+async fn run_late(thr: u32, batch: bool, late: usize, late_ok: &[bool], dir: &std::path::Path, run_no: u64, out: &mut Partial) {
+    let mut rg = rig_with(dir, run_no, thr, true);
+    let api = if batch { "batch" } else { "send" };
+    let size = if batch { 2 } else { 1 };
+    out.eval();
+    let desc = json!({"failure_threshold": thr, "reset_timeout_s": R_SECS, "api": api, "downstream": "plain Sink (calls are not serialised)",
+        "script": [format!("{} caller(s) start while closed and block inside the downstream", late), format!("{} sequential failing calls (breaker opens)", thr),
+            format!("the blocked calls are released one by one: {:?} (true = downstream ok)", late_ok), "follow-up call immediately", format!("clock_advance({} s), follow-up call", R_SECS)]});
+    rg.gated.store(true, Ordering::SeqCst);
+    let mut hs = vec![];
+    for k in 0..late {
+        let evs = rg.new_events(size);
+        let first = evs[0].get_int("uid").unwrap();
+        {
+            let mut s = rg.st.lock().unwrap();
+            s.block_uids.insert(first);
+            if !late_ok[k] {
+                s.fail_uids.insert(first);
+            }
+        }
+        let rs = rg.rs.clone();
+        hs.push((first, tokio::spawn(async move { if batch { rs.send_batch(&evs).await.is_ok() } else { rs.send(&evs[0]).await.is_ok() } })));
+        settle().await;
+    }
+    if hs.iter().any(|(u, h)| !rg.entered(*u) || h.is_finished()) {
+        out.add("late_callers_not_in_flight", 1);
+        rg.gated.store(false, Ordering::SeqCst);
+        rg.gate.add_permits(64);
+        settle().await;
+        return;
+    }
+    for _ in 0..thr {
+        let evs = rg.new_events(size);
+        rg.st.lock().unwrap().fail_uids.insert(evs[0].get_int("uid").unwrap());
+        let _ = if batch { rg.rs.send_batch(&evs).await.is_ok() } else { rg.rs.send(&evs[0]).await.is_ok() };
+    }
+    if rg.cb.state() != State::Open {
+        out.violation(&format!("late/{}/not-open-after-threshold-failures", api), "the breaker is not open after `threshold` consecutive failures reported while other calls are in flight",
+            json!({"scenario": desc, "state()": state_name(rg.cb.state())}));
+        rg.gated.store(false, Ordering::SeqCst);
+        rg.gate.add_permits(64);
+        settle().await;
+        return;
+    }
+    let mut states = vec![];
+    for _ in 0..late {
+        rg.gate.add_permits(1);
+        settle().await;
+        states.push(state_name(rg.cb.state()));
+    }
+    rg.gated.store(false, Ordering::SeqCst);
+    for (_, h) in hs {
+        if !h.is_finished() {
+            h.abort();
+            out.inconclusive("late callers did not finish after release");
+            return;
+        }
+        let _ = h.await;
+    }
+    out.add("late_completions_while_open", late as u64);
+    let evs = rg.new_events(size);
+    let before = rg.entered_len();
+    let _ = if batch { rg.rs.send_batch(&evs).await.is_ok() } else { rg.rs.send(&evs[0]).await.is_ok() };
+    let reached = rg.entered_len() > before;
+    let observed = json!({"state()_after_each_release": states, "follow_up_reached_downstream": reached});
+    if states.iter().any(|s| *s != "open") || reached {
+        out.violation(&format!("late/{}/open-period-cut-short-by-late-{}", api, if late_ok.iter().all(|o| *o) { "success" } else if late_ok.iter().any(|o| *o) { "mixed" } else { "failure" }),
+            "a call admitted before the breaker opened completed while it was open, and the breaker then admitted a request (or left the open state) before the reset timeout had passed",
+            json!({"scenario": desc, "observed": observed}));
+    } else {
+        clock_advance(Duration::from_secs(R_SECS));
+        let evs = rg.new_events(size);
+        let before = rg.entered_len();
+        let _ = if batch { rg.rs.send_batch(&evs).await.is_ok() } else { rg.rs.send(&evs[0]).await.is_ok() };
+        if rg.entered_len() == before {
+            out.violation(&format!("late/{}/rejected-after-reset-timeout", api), "a full reset timeout after the last reported failure the breaker still rejects",
+                json!({"scenario": desc, "observed": observed}));
+        }
+    }
+    check_conservation(&rg, "late", api, true, &desc, out);
+    out.nontrivial(&(thr, batch, late, late_ok.to_vec(), 77u8));
+    let _ = std::fs::remove_file(&rg.dlq_path);
+}
+
 /// three callers in flight while the breaker is closed: conservation only
 async fn run_conc_closed(thr: u32, batch: bool, outcomes: [bool; 3], dir: &std::path::Path, run_no: u64, out: &mut Partial) {
     let mut rg = rig(dir, run_no, thr);
@@ -667,7 +782,7 @@ fn main() {
     install_quiet_panic_hook();
     watchdog("C45", args.pick(300, 3600));
     let mut rep = Report::new("C45", "exploration", &args);
-    rep.rule = "seq lane: ALL downstream outcome sequences of length <= L (quick 8, thorough 10) x thresholds 1..=4 x {send, send_batch(2, atomic)} x 4 virtual-time policies, plus random sequences of length 7..=12 (random advances from {0, 0.4 R, R}, batch sizes 1..=3, batches failing at a random event); conc lane: thresholds 1..=4 x {send, batch} x 1-2 extra callers started while the probe blocks inside the downstream x probe outcome x extra outcomes x follow-up timing, plus 3 callers in flight while closed, plus random schedules of up to 3 in-flight callers / releases / clock advances (conservation only). Non-trivial = the run contains open -> half-open (a probe admitted) -> close or reopen; distinct by the whole case.".into();
+    rep.rule = "seq lane: ALL downstream outcome sequences of length <= L (quick 8, thorough 10) x thresholds 1..=4 x {send, send_batch(2, atomic)} x 4 virtual-time policies, plus random sequences of length 7..=12 (random advances from {0, 0.4 R, R}, batch sizes 1..=3, batches failing at a random event); conc lane: thresholds 1..=4 x {send, batch} x 1-2 extra callers started while the probe blocks inside the downstream x probe outcome x extra outcomes x follow-up timing, plus 3 callers in flight while closed, plus random schedules of up to 3 in-flight callers / releases / clock advances (conservation only); late lane: over a plain Sink (no adapter mutex) 1-2 callers admitted while closed stay blocked in the downstream while `threshold` failing calls open the breaker, then complete (every ok/fail combination): the breaker must stay open and reject until the reset timeout has passed. Non-trivial = the run contains open -> half-open (a probe admitted) -> close or reopen; distinct by the whole case.".into();
     rep.assume("virtual advances are 0, 0.4 R or R with R = 1000 s, so real time (checked < 100 s per run) cannot move an elapsed-time decision across the reset timeout");
     rep.assume("'delivered' = the scripted downstream recorded a success for that uid; downstream outcomes are attached to calls (a call that the breaker rejects consumes none)");
     rep.assume("the mock is wrapped in the production SinkConnectorAdapter (the Sink trait's error type is not nameable from the harness crate); the adapter serialises downstream calls, so an extra caller that passed the breaker reaches the mock after the probe is released - reaching the mock at all is the observation");
@@ -757,6 +872,21 @@ fn main() {
                 let r = catch(std::panic::AssertUnwindSafe(|| rt.block_on(run_conc_closed(thr, batch, outcomes, &dir, run_no, &mut out))));
                 if let Err(p) = r {
                     out.violation("conc/panic", "panic in the resilient sink path", json!({"closed_concurrent": outcomes, "panic": p}));
+                }
+            }
+        }
+    }
+    // ---------------- late completions while open (plain Sink, genuinely overlapping calls) ----------------
+    for thr in 1..=4u32 {
+        for batch in [false, true] {
+            for late in 1..=2usize {
+                for lo in 0..(1u32 << late) {
+                    let late_ok: Vec<bool> = (0..late).map(|k| (lo >> k) & 1 == 1).collect();
+                    run_no += 1;
+                    let r = catch(std::panic::AssertUnwindSafe(|| rt.block_on(run_late(thr, batch, late, &late_ok, &dir, run_no, &mut out))));
+                    if let Err(p) = r {
+                        out.violation("late/panic", "panic in the resilient sink path", json!({"late": late_ok, "panic": p}));
+                    }
                 }
             }
         }
